@@ -1061,6 +1061,8 @@ def _run_rest(chk, fx):
 
     from verif import fallthrough
     fallthrough.run(chk, "C07", floor=6)
+    from verif import rawio
+    rawio.run(chk, "C07", floor=30)
     from verif import argorder
     argorder.run(chk, "C07", floor=28)
 
